@@ -1,52 +1,203 @@
-"""C01 - Array, Stack and Queue behave as a sequence for every operation history (spec/ArraySeq.tla)."""
+"""C01 - Array, Stack and Queue behave as a sequence for every operation history (spec/ArraySeq.tla), grown to the
+remaining public surface of asl::Array and to the sibling containers Array_<T,N> (spec/ArrayFix.tla) and Array2<T>
+(spec/Array2D.tla), which refine the sequence model."""
+import copy
+import json
 import os
 import subprocess
+import threading
 import vlib
 
 META = {
-    "engine": "ArraySeq.tla",
+    "engine": "ArraySeq.tla, ArrayFix.tla, Array2D.tla, Trace_ArraySeq.tla, Trace_Array2D.tla",
     "technique": "TLC exhaustive enumeration of ArraySeq.tla histories (shared handles, aliasing calls) replayed "
-                 "transition-by-transition on Array/Stack/Queue under ASan+LSan; recorded random executions "
-                 "validated against the same spec actions",
+                 "transition-by-transition on Array/Stack/Queue under ASan+LSan; the same for the refinements ArrayFix.tla "
+                 "(Array_<T,N>) and Array2D.tla (Array2<T>), whose steps TLC checks to be steps of the sequence model; "
+                 "recorded random executions of Array/Stack/Queue and Array2 validated against the same spec actions",
     "design_ref": "DESIGN.md section 6, C01",
     "level_text": "TLC enumerates every history of public Array/Stack/Queue calls (through 3 handles, incl. aliasing "
                   "calls and clones) up to the configured bound on ArraySeq.tla, checks the spec's own invariants "
                   "(no orphan storage, clone independence), and every transition is replayed on the real containers "
-                  "(8 element/container instantiations) under ASan/LSan with the projected state compared.",
-    "level_note": "Bounded (constants in spec/MC_ArraySeq_*.cfg). Trusted: TLC, clang ASan/LSan, the replayer's projection. "
-                  "Open finding GrowWhileShared is excluded by a hazard predicate evaluated on the real rc()/cap().",
+                  "(8 element/container instantiations) under ASan/LSan with the projected state compared. "
+                  "The same is done for the rest of Array.h (NextExt of ArraySeq.tla: constructors, pointer-based "
+                  "append/copy incl. pointers into the array itself, initializer lists, element-type conversions, "
+                  "sort(Less)/sortBy, removeIf/removeOne/remove variants, enumerators, ==/!=/<, join, Stack::top), for "
+                  "Array_<T,N> (ArrayFix.tla: value semantics, fixed length; invariants FixedOK/LenStable) and for "
+                  "Array2<T> (Array2D.tla: rows x cols over a shared row-major sequence, index map i*cols+j; invariant "
+                  "DimsOK); TLC checks the action properties RefinesSeq / RefinesSeq2 (every step of a sibling container "
+                  "is a step of the sequence model). Recorded executions (Trace_ArraySeq.tla incl. the new calls, "
+                  "Trace_Array2D.tla) are validated against the same actions.",
+    "level_note": "Bounded (constants in spec/MC_ArraySeq*_*.cfg, MC_ArrayFix_*.cfg, MC_Array2D_*.cfg). Trusted: TLC, clang "
+                  "ASan/LSan, the replayers' projection. Open finding GrowWhileShared is excluded by a hazard predicate "
+                  "evaluated on the real rc()/cap(). Left unconstrained because the documentation is silent: the result of "
+                  "Array::operator< / Array_::operator< when the first differing element is greater (the code is not "
+                  "lexicographic), what other handles see after a = {...} / a = Array<K> on a shared array, Array2::resize / "
+                  "list assignment while the storage is shared (the other object keeps stale rows()/cols()), element "
+                  "placement after an Array2::resize that changes cols. Not covered: move construction/assignment "
+                  "(ASL_HAVE_MOVE is commented out in defs.h); the const overload of Array::slice_() does not compile "
+                  "when instantiated (no Enumerator(const Array&, int, int)) - a build-time defect no execution can show.",
 }
+
+# calls every generated case file must contain at least once (vacuity guard: TLC's coverage sees only one Next action)
+EXT_OPS = {"ctorN", "ctorFill", "fromList", "ctorPtr", "appendPtr", "copyPtr", "assignList", "appendList", "conv",
+           "assignConv", "sortDesc", "sortBy", "removeIfLt", "removeOneFrom", "remove", "enum", "indexOf", "top", "cmp",
+           "join", "append", "resize", "copyHandle", "dropHandle"}
+FIX_OPS = {"set", "clone", "conv", "copyFrom", "reversed", "slice", "sort", "sortDesc", "dropHandle", "fromList",
+           "indexOf", "cmp", "join", "enum"}
+A2_OPS = {"ctorN", "ctorFill", "fromList", "set", "fill", "resize", "assignList", "clone", "conv", "copyHandle",
+          "assignHandle", "dropHandle", "slice2", "cmp2", "idx2", "enum"}
+
+
+def _ops_in(path):
+    p = subprocess.run("grep -o '\"op\":\"[A-Za-z0-9_]*\"' %s | sort -u" % path, shell=True, stdout=subprocess.PIPE, text=True)
+    return set(x.split('"')[3] for x in p.stdout.split())
+
+
+def _sub(ctx, name):
+    """A private context for a pipeline that runs in its own thread (counters are merged afterwards)."""
+    s = copy.copy(ctx)
+    s.states = s.transitions = s.traces = s.evaluations = s.distinct = 0
+    s.samples, s.assumptions, s.engines, s.violations = [], [], [], []
+    s.known_hits, s.extra = {}, {}
+    s._rec_exec = 0
+    s.tmp = os.path.join(ctx.tmp, name)
+    os.makedirs(s.tmp, exist_ok=True)
+    return s
+
+
+def _merge(ctx, s):
+    ctx.states += s.states
+    ctx.transitions += s.transitions
+    ctx.traces += s.traces
+    ctx.evaluations += s.evaluations
+    ctx.distinct += s.distinct
+    ctx.engines += s.engines
+    ctx.violations += s.violations
+    ctx.assumptions += s.assumptions
+    ctx.add_samples(s.samples)
+    for hz, n in s.known_hits.items():
+        ctx.known_hit(hz, n)
+
+
+def _model_replay(c, spec, cfg, exe, label, need_ops, workers, jobs, timeout):
+    cases = os.path.join(c.tmp, label.replace("/", "_") + ".cases")
+    c.model(spec, cfg, emit_to=cases, timeout=timeout, xmx=c.pick("2g", "3g"), must_cover=False, workers=workers)
+    missing = need_ops - _ops_in(cases)
+    if missing:
+        raise vlib.HarnessError("%s/%s: vacuous run, calls never generated: %s" % (spec, cfg, sorted(missing)))
+    c.replay(exe, cases, label=label, timeout=timeout, jobs=jobs)
+    os.unlink(cases)
+
+
+def _array_surface_and_fixed(c, rep, sib):
+    """rest of Array.h (NextExt of ArraySeq.tla) and Array_<T,N> (ArrayFix.tla)"""
+    q = c.quick
+    # (module spelled with .tla: a second TLC run of ArraySeq in this process needs its own metadir name)
+    for cfg in (["MC_ArraySeqExt_quick"] if q else ["MC_ArraySeqExt_thorough"]):
+        _model_replay(c, "ArraySeq.tla", cfg, rep, "R/" + cfg, EXT_OPS, c.pick(4, 8), c.pick(8, 16), c.pick(600, 3000))
+    for cfg in (["MC_ArrayFix_quick"] if q else ["MC_ArrayFix_thorough", "MC_ArrayFix_thorough2"]):
+        _model_replay(c, "ArrayFix", cfg, sib, "R/" + cfg, FIX_OPS, c.pick(4, 8), c.pick(8, 16), c.pick(600, 3000))
+    c.model("ArrayFix", c.pick("MC_ArrayFix_refine", "MC_ArrayFix_refine_thorough"), what="ArrayFix refines ArraySeq",
+            timeout=c.pick(600, 3000), xmx="2g", must_cover=False, workers=c.pick(3, 6))
+
+
+def _array2(c, lib, sib):
+    """Array2<T> (Array2D.tla): R, refinement, V"""
+    q = c.quick
+    for cfg in (["MC_Array2D_quick"] if q else ["MC_Array2D_thorough"]):
+        _model_replay(c, "Array2D", cfg, sib, "R/" + cfg, A2_OPS, c.pick(4, 8), c.pick(8, 16), c.pick(600, 3000))
+    c.model("Array2D.tla", c.pick("MC_Array2D_refine", "MC_Array2D_refine_thorough"), what="Array2D refines ArraySeq",
+            timeout=c.pick(600, 3000), xmx="2g", must_cover=False, workers=c.pick(3, 6))
+    # the shape the specification leaves open (resize through one object while another shares the storage): TLC must
+    # be able to exhibit the counterexample to DimsOK, otherwise the guard RC = 1 in Resize2 would be pointless
+    r = vlib.tlc("Array2D", "MC_Array2D_sharedresize", workers=2, timeout=600, xmx="2g")
+    if r.violated() != "DimsOK":
+        raise vlib.HarnessError("Array2D/MC_Array2D_sharedresize: TLC did not exhibit the stale-dimensions counterexample (%s)\n%s"
+                                % (r.violated(), r.tail()))
+    c.engines.append("Array2D/MC_Array2D_sharedresize: counterexample to DimsOK at depth %d when resize() on shared storage is "
+                     "allowed (left unconstrained, not generated)" % r.depth)
+    rec2 = vlib.build_harness(lib, "c01_sib_record", ["c01_sib_record.cpp"])
+    files = c.record(rec2, c.pick(4, 24), c.pick(4000, 30000), "V/Array2D")
+    c.validate_traces("Trace_Array2D", "Trace_Array2D", files, label="V/Array2D", timeout=c.pick(600, 3000), parallel=c.pick(4, 8), xmx="2g")
 
 
 def run(ctx):
     lib = vlib.build_lib("asan")
     rep = vlib.build_harness(lib, "c01_replay", ["c01_replay.cpp"])
-    # quick: 3 handles x 4 calls; thorough adds 2 handles x 6 calls (12.5 M transitions).  (3 handles x 5 calls = 21.7 M
-    # transitions cannot be emitted: TLC interns every printed string and its table overflows at about 33.5 M entries.)
-    cfgs = ["MC_ArraySeq_quick"] if ctx.quick else ["MC_ArraySeq_thorough", "MC_ArraySeq_thorough2"]
+    sib = vlib.build_harness(lib, "c01_sib_replay", ["c01_sib_replay.cpp"])
     ctx.exhaustive = True
-    ctx.rule = ("one case per transition of the ArraySeq state graph (history of public calls + expected projected state); "
-                "non-trivial = history with >= 2 calls; distinct = distinct case lines (hash)")
-    for cfg in cfgs:
-        cases = os.path.join(ctx.tmp, "c01.cases")
-        ctx.model("ArraySeq", cfg, emit_to=cases, timeout=ctx.pick(600, 5400), xmx="6g", must_cover=ctx.quick)
-        ctx.replay(rep, cases, label="R/" + cfg, timeout=ctx.pick(900, 7200))
-        os.unlink(cases)
-    # V: recorded random executions (long arrays, all growth boundaries) validated against the same actions
-    rec = vlib.build_harness(lib, "c01_record", ["c01_record.cpp"])
-    files = ctx.record(rec, ctx.pick(8, 48), ctx.pick(6000, 40000), "V/ArraySeq")
-    ctx.validate_traces("Trace_ArraySeq", "Trace_ArraySeq", files, label="V/ArraySeq", timeout=ctx.pick(600, 3000))
+    ctx.rule = ("one case per transition of the ArraySeq / ArrayFix / Array2D state graphs (history of public calls + expected "
+                "projected state); non-trivial = history with >= 2 calls; distinct = distinct case lines (hash)")
+
+    # the grown parts run beside the core pipeline, each with its own counters
+    subs, errors = [], []
+
+    def guarded(fn, c, *a):
+        try:
+            fn(c, *a)
+        except BaseException as e:   # re-raised in the main thread
+            errors.append(e)
+
+    s1, s2 = _sub(ctx, "ext"), _sub(ctx, "a2")
+    subs = [s1, s2]
+    threads = [threading.Thread(target=guarded, args=(_array_surface_and_fixed, s1, rep, sib)),
+               threading.Thread(target=guarded, args=(_array2, s2, lib, sib))]
+    for t in threads:
+        t.start()
+    try:
+        # core: quick 3 handles x 4 calls; thorough adds 2 handles x 6 calls (12.5 M transitions).  (3 handles x 5 calls = 21.7 M
+        # transitions cannot be emitted: TLC interns every printed string and its table overflows at about 33.5 M entries.)
+        cfgs = ["MC_ArraySeq_quick"] if ctx.quick else ["MC_ArraySeq_thorough", "MC_ArraySeq_thorough2"]
+        for cfg in cfgs:
+            cases = os.path.join(ctx.tmp, "c01.cases")
+            ctx.model("ArraySeq", cfg, emit_to=cases, timeout=ctx.pick(600, 5400), xmx="6g", must_cover=ctx.quick)
+            ctx.replay(rep, cases, label="R/" + cfg, timeout=ctx.pick(900, 7200))
+            os.unlink(cases)
+        # V: recorded random executions (long arrays, all growth boundaries, core and remaining calls) validated against the same actions
+        rec = vlib.build_harness(lib, "c01_record", ["c01_record.cpp"])
+        files = ctx.record(rec, ctx.pick(8, 48), ctx.pick(6000, 40000), "V/ArraySeq")
+        ctx.validate_traces("Trace_ArraySeq", "Trace_ArraySeq", files, label="V/ArraySeq", timeout=ctx.pick(600, 3000))
+    finally:
+        for t in threads:
+            t.join()
+    for s in subs:
+        _merge(ctx, s)
+    if errors:
+        raise errors[0]
     ctx.assumptions += [
-        "exhaustive within the constants of spec/%s.cfg; beyond them only the recorded random executions apply" % "+".join(cfgs),
+        "exhaustive within the constants of spec/%s.cfg and of the MC_ArraySeqExt / MC_ArrayFix / MC_Array2D configurations of this tier; "
+        "beyond them only the recorded random executions apply" % "+".join(cfgs),
         "memory errors/leaks are observed by ASan/LSan on the replayed executions, not decided by the model",
-        "int arrays: elements created by resize() are assigned 0 by the driver before being read (they are indeterminate by design)",
+        "int arrays: elements created by resize() / Array(n) / Array2(r,c) / Array_ are assigned 0 by the driver before being read (they are indeterminate by design)",
+        "left unconstrained (undocumented): operator< where the first differing element is greater; a = {...} / a = Array<K> and "
+        "Array2::resize / list assignment on shared storage; element placement after Array2::resize with a different cols",
     ]
+
+
+def _kind_of(path):
+    try:
+        with open(path) as f:
+            return json.loads(f.readline()).get("k", "")
+    except Exception:
+        return ""
 
 
 def replay(path):
     lib = vlib.build_lib("asan")
-    if os.path.basename(path).startswith("rec-") or path.endswith(".ndjson"):
+    base = os.path.basename(path)
+    if base.startswith("rec-") or path.endswith(".ndjson"):
+        a2 = "Array2D" in base
+        if not a2 and not path.endswith(".ndjson"):
+            try:
+                a2 = "sib" in json.load(open(path)).get("recorder", "")
+            except Exception:
+                pass
+        if a2:
+            return vlib.replay_recorded(path, lib, "c01_sib_record", ["c01_sib_record.cpp"], "Trace_Array2D", "Trace_Array2D")
         return vlib.replay_recorded(path, lib, "c01_record", ["c01_record.cpp"], "Trace_ArraySeq", "Trace_ArraySeq")
-    rep = vlib.build_harness(lib, "c01_replay", ["c01_replay.cpp"])
+    if _kind_of(path) in ("fix", "a2"):
+        rep = vlib.build_harness(lib, "c01_sib_replay", ["c01_sib_replay.cpp"])
+    else:
+        rep = vlib.build_harness(lib, "c01_replay", ["c01_replay.cpp"])
     r = subprocess.run([rep, "--single", path], env=vlib.run_env())
     return 1 if r.returncode == 1 else (0 if r.returncode == 0 else 2)
